@@ -18,6 +18,7 @@ type Conn struct {
 	demux      *demux
 	inbound    bool
 	dataFrames <-chan frame
+	unread     []byte // Remainder of the last data frame not yet returned by Read.
 
 	srcCall, dstCall string
 	via              []string
@@ -162,6 +163,11 @@ func (c *Conn) Write(p []byte) (int, error) {
 }
 
 func (c *Conn) Read(p []byte) (int, error) {
+	if len(c.unread) > 0 {
+		n := copy(p, c.unread)
+		c.unread = c.unread[n:]
+		return n, nil
+	}
 	ctx := context.Background()
 	if !c.readDeadline.IsZero() {
 		var cancel func()
@@ -176,11 +182,9 @@ func (c *Conn) Read(p []byte) (int, error) {
 		if !ok {
 			return 0, io.EOF
 		}
-		if len(p) < len(f.Data) {
-			panic("buffer overflow")
-		}
-		copy(p, f.Data)
-		return len(f.Data), nil
+		n := copy(p, f.Data)
+		c.unread = f.Data[n:]
+		return n, nil
 	}
 }
 
